@@ -46,7 +46,11 @@ def loop_contract(eng, node):
     n = loop_ordinal(eng, node)
     lc = eng.contract.loops.get(n)
     header = ast.unparse(node.test) if isinstance(node, ast.While) else f"{ast.unparse(node.target)} in {ast.unparse(node.iter)}"
-    if lc is not None and lc.get("anchor") is not None and lc["anchor"] != header:
+    import re as _re
+    norm = lambda t: _re.sub(r"<=|>=|==|!=|<|>", "<cmp>", t)
+    # the anchor identifies the loop the invariant was written for; a changed comparison operator is still the same loop
+    # (its obligations then decide), anything else is a refactoring: contract out of date
+    if lc is not None and lc.get("anchor") is not None and norm(lc["anchor"]) != norm(header):
         raise Unsupported(f"loop {n} header is {header!r}, contract was written for {lc['anchor']!r} (contract out of date)")
     return n, lc, header
 
@@ -149,6 +153,8 @@ def cut_loop(eng, node, st, k, ctx, n, lc, guard_fn, pre_body, post_body, index_
 
     def iteration(s_it):
         pre_body(s_it)
+        cv = eng.oblige(s_it, z3.BoolVal(False), "cover", f"loop{n}-body-reachable", node, text="invariant and guard are satisfiable together (vacuity guard)")
+        cv.expect = "sat"
 
         def end_of_body(s_end):
             check_declared(s_end)
